@@ -1,0 +1,17 @@
+//go:build verif
+
+package exptypes
+
+import (
+	"github.com/cedar-policy/cedar-go/types"
+	"github.com/cedar-policy/cedar-go/x/exp/schema/resolved"
+)
+
+// VerifCoerceValue exposes the schema-guided coercion of one decoded value along one declared type (verification harness only, build
+// tag verif).
+func VerifCoerceValue(v types.Value, typ resolved.IsType) types.Value { return coerceValue(v, typ) }
+
+// VerifCoerceTags exposes the coercion of the tag values of one entity along the declared tag type.
+func VerifCoerceTags(tags types.Record, typ resolved.IsType) types.Record {
+	return coerceTagValues(tags, typ)
+}
